@@ -100,6 +100,8 @@ impl PayloadHistory {
     fn serial(&self) -> (res: Serial) ensures res == self.cur() { unimplemented!() }
     #[verifier::external_body]
     fn is_active(&self) -> (res: bool) ensures res == self.current.is_some() { unimplemented!() }
+    #[verifier::external_body]
+    fn rtr_session(&self) -> (res: u16) ensures res == self.session as u16 { unimplemented!() }
 }
 
 // ===== ghost clock (rewrite R20): one step per lock acquisition / subscribe / recv of this request;
@@ -151,6 +153,8 @@ impl Request {
     pub uninterp spec fn query_spec(&self) -> Option<Seq<char>>;
     #[verifier::external_body] pub fn uri(&self) -> (r: &Uri) ensures r.query_spec() == self.query_spec() { unimplemented!() }
     #[verifier::external_body] pub fn is_head(&self) -> bool { unimplemented!() }
+    #[verifier::external_body] pub fn is_api(&self) -> bool { unimplemented!() }
+    #[verifier::external_body] pub fn is_get_or_head(&self) -> bool { unimplemented!() }
 }
 impl Uri {
     pub uninterp spec fn query_spec(&self) -> Option<Seq<char>>;
@@ -172,7 +176,11 @@ pub fn version_from_query(query: Option<&str>) -> (r: Result<Option<(u64, Serial
 { unimplemented!() }
 
 pub struct ContentType { pub kind: u8 }
-impl ContentType { pub const JSON: ContentType = ContentType { kind: 1 }; }
+impl ContentType {
+    pub const JSON: ContentType = ContentType { kind: 1 };
+    pub const TEXT: ContentType = ContentType { kind: 2 };
+    pub const CSV: ContentType = ContentType { kind: 3 };
+}
 pub enum Body {
     Empty, Text,
     Delta { session: u64, from: Serial, to: Serial, delta: Arc<PayloadDelta> },
@@ -207,6 +215,10 @@ impl Response {
     pub uninterp spec fn body_spec(&self) -> Body;
     #[verifier::external_body]
     pub fn initial_validation(api: bool) -> (r: Response) ensures r.status_spec() == 503, r.body_spec() is Text { unimplemented!() }
+    #[verifier::external_body]
+    pub fn bad_request<M>(api: bool, message: M) -> (r: Response) ensures r.status_spec() == 400, r.body_spec() is Text { unimplemented!() }
+    #[verifier::external_body]
+    pub fn not_found(api: bool) -> (r: Response) ensures r.status_spec() == 404, r.body_spec() is Text { unimplemented!() }
 }
 impl ResponseBuilder {
     #[verifier::external_body] pub fn ok() -> ResponseBuilder { unimplemented!() }
